@@ -53,6 +53,8 @@ pub enum Op {
     /// reset that must fail: 0 zero originals, 1 zero recovery, 2 both too large, 3 odd size, 4 zero size,
     /// 5 outside this family's envelope, 6 other counts (possibly the other rate) with odd size, 7 other counts with size 0
     ResetBad { variant: u8, cfg: RawCfg },
+    /// a failing reset (these counts, invalid size) immediately retried with the size corrected
+    ResetRetry { cfg: RawCfg, zero: bool },
     /// into_parts -> new(Some(work)) of another family / engine (not available for ReedSolomon*)
     /// `same`: keep the current counts and shard size if the new family supports them
     Recycle { kind: Kind, eng: Eng, cfg: RawCfg, same: bool },
@@ -89,7 +91,10 @@ pub struct OpWeights {
 pub fn op(max_medium: usize, w: &OpWeights) -> BoxedStrategy<Op> {
     prop_oneof![
         w.reset => prop_oneof![5 => raw_cfg(max_medium).prop_map(Op::Reset), 1 => Just(Op::ResetSame)],
-        w.reset_bad => (0u8..8, raw_cfg(max_medium)).prop_map(|(variant, cfg)| Op::ResetBad { variant, cfg }),
+        w.reset_bad => prop_oneof![
+            3 => (0u8..8, raw_cfg(max_medium)).prop_map(|(variant, cfg)| Op::ResetBad { variant, cfg }),
+            1 => (raw_cfg(max_medium), any::<bool>()).prop_map(|(cfg, zero)| Op::ResetRetry { cfg, zero }),
+        ],
         w.recycle => (gen::kind_rate(), gen::engine(), raw_cfg(max_medium), prop::bool::weighted(0.4)).prop_map(|(kind, eng, cfg, same)| Op::Recycle { kind, eng, cfg, same }),
         w.round => (any::<u64>(), gen::recv_spec(), prop::bool::weighted(0.85)).prop_map(|(seed, recv, read)| Op::Round { seed, recv, read }),
         w.partial => (any::<u64>(), gen::recv_spec(), any::<u16>()).prop_map(|(seed, recv, n_raw)| Op::Partial { seed, recv, n_raw }),
@@ -341,6 +346,10 @@ pub fn expand(op: &Op, dec: bool, kind: Kind, cur: Cfg, acc: &Accepted) -> Vec<C
             vec![Call::Reset(c.k, c.r, c.b)]
         }
         Op::ResetSame => vec![Call::Reset(cur.k, cur.r, cur.b)],
+        Op::ResetRetry { cfg, zero } => {
+            let c = cfg.orient(kind);
+            vec![Call::Reset(c.k, c.r, if *zero { 0 } else { c.b + 1 }), Call::Reset(c.k, c.r, c.b)]
+        }
         Op::ResetBad { variant, cfg } => vec![bad_reset(*variant, kind, cur, cfg.orient(kind))],
         Op::Recycle { .. } => Vec::new(),
         Op::Round { seed, recv, read } => round_calls(dec, cur, acc, *seed, recv, None, Some(*read)),
@@ -367,6 +376,7 @@ pub fn op_label(op: &Op) -> &'static str {
     match op {
         Op::Reset(_) => "reset",
         Op::ResetSame => "reset_same",
+        Op::ResetRetry { .. } => "reset_retry",
         Op::ResetBad { .. } => "reset_bad",
         Op::Recycle { .. } => "recycle",
         Op::Round { .. } => "round",
